@@ -548,6 +548,49 @@ func wantList(c Case, r core.Result, want []any, keys []string) *core.Violation 
 	return unexpected(c, r, want)
 }
 
+// wantMultiset checks a multi-key result irrespective of order: the output
+// must be a list holding exactly the wanted elements.
+func wantMultiset(c Case, r core.Result, want []any) *core.Violation {
+	if r.Exit != 0 || len(r.Stderr) > 0 {
+		return unexpected(c, r, want)
+	}
+	var got []any
+	if c.Type == "jsonl" {
+		g, err := parseLines(r.Stdout)
+		if err != nil {
+			return unexpected(c, r, want)
+		}
+		got = g
+	} else {
+		g, err := parseStructured(c.Type, r.Stdout)
+		if err != nil {
+			return unexpected(c, r, want)
+		}
+		l, ok := g.([]any)
+		if !ok {
+			return unexpected(c, r, want)
+		}
+		got = l
+	}
+	if len(got) != len(want) {
+		return unexpected(c, r, want)
+	}
+	used := make([]bool, len(got))
+	for _, w := range want {
+		found := false
+		for i, g := range got {
+			if !used[i] && equal(g, w) {
+				used[i], found = true, true
+				break
+			}
+		}
+		if !found {
+			return unexpected(c, r, want)
+		}
+	}
+	return nil
+}
+
 func check(c Case) *core.Violation {
 	doc, err := c.model()
 	if err != nil {
@@ -626,13 +669,30 @@ func check(c Case) *core.Violation {
 		if _, ok := doc.([]any); ok {
 			// only the documented form (distinct ascending indexes) has a stated
 			// result; other orders / repeats: cleanliness only
-			for i := 1; i < len(pos); i++ {
-				if pos[i] <= pos[i-1] {
-					core.Count("multi-unordered-unasserted", 1)
-					return nil
+			ascending, distinct := true, true
+			seenPos := map[int]bool{}
+			for i := range pos {
+				if i > 0 && pos[i] <= pos[i-1] {
+					ascending = false
 				}
+				if seenPos[pos[i]] {
+					distinct = false
+				}
+				seenPos[pos[i]] = true
 			}
-			return wantList(c, r, vals, nil)
+			if ascending {
+				return wantList(c, r, vals, nil)
+			}
+			if !distinct {
+				// a repeated index: the statement does not say whether the
+				// element comes back once or twice
+				core.Count("multi-repeated-unasserted", 1)
+				return nil
+			}
+			// distinct indexes in another order: the order of the result is
+			// not stated, but it must hold exactly the requested elements
+			core.Count("multi-unordered-multiset", 1)
+			return wantMultiset(c, r, vals)
 		}
 		seen := map[string]bool{}
 		for _, k := range c.Params {
